@@ -914,6 +914,8 @@ var hangs int // rounds that did not return: after three the remaining rounds ar
 // doConfig runs one round of the real ServiceMonitor.makeConfig: every entry is a passing
 // instance on node "n<i>"; lookups of the services in failing return an error.  A round that
 // does not return within the deadline is a violation (route updates of every service are delayed).
+var histMon *consul.ServiceMonitor
+
 func doConfig(run *vh.Run, class string, prefix string, dc string, monitors int, es []entry, failing map[string]bool) {
 	env := map[string]string{"DC": dc}
 	if hangs >= 3 {
@@ -959,7 +961,12 @@ func doConfig(run *vh.Run, class string, prefix string, dc string, monitors int,
 	if err != nil {
 		panic(err)
 	}
-	mon := consul.NewServiceMonitor(client, &config.Consul{TagPrefix: prefix, ServiceMonitors: monitors}, dc)
+	// histMon: one ServiceMonitor for all rounds of a history (what the monitor remembers from
+	// earlier rounds is then part of what is judged); otherwise a fresh monitor per round
+	mon := histMon
+	if mon == nil {
+		mon = consul.NewServiceMonitor(client, &config.Consul{TagPrefix: prefix, ServiceMonitors: monitors}, dc)
+	}
 	sample := map[string]interface{}{"prefix": prefix, "dc": dc, "monitors": monitors, "catalog": es, "lookup_fails": failing}
 	type res struct {
 		text   string
@@ -1313,6 +1320,52 @@ func main() {
 				es[len(es)-1].Tags = rts
 			}
 			doConfig(run, "makeconfig/history", g.prefix, "dc1", mons, es, failing)
+		}
+	}
+
+	// histories on ONE ServiceMonitor in which only what the commands are BUILT from changes while
+	// identities, health and tags stay: the node address (used when the service has no address of
+	// its own), the service address, the port; then back.  Every round is judged on its own: the
+	// commands denote the registration of THIS round.  Own random stream.
+	{
+		hr := rand.New(rand.NewSource(run.Seed*7919 + 14))
+		nm := run.Scale(16, 200)
+		for h := 0; h < nm; h++ {
+			g := &gen{r: hr, prefix: "urlprefix-"}
+			mons := 1 + hr.Intn(4)
+			client, err := api.NewClient(&api.Config{Address: strings.TrimPrefix(theCatalog.srv.URL, "http://")})
+			if err != nil {
+				panic(err)
+			}
+			histMon = consul.NewServiceMonitor(client, &config.Consul{TagPrefix: g.prefix, ServiceMonitors: mons}, "dc1")
+			a := entry{Name: fmt.Sprintf("m%d-node", h), ID: fmt.Sprintf("m%d-node-1", h), Addr: "", Node: "172.16.0.5", Port: 8000 + hr.Intn(100),
+				Tags: []string{"urlprefix-/node" + []string{"", " strip=/node", " proto=https"}[hr.Intn(3)], "v1"}}
+			b := entry{Name: fmt.Sprintf("m%d-own", h), ID: fmt.Sprintf("m%d-own-1", h), Addr: "10.0.0.7", Node: "172.16.0.6", Port: 9000,
+				Tags: []string{"urlprefix-own.example.com/", "urlprefix-/own proto=tcp"}}
+			c := g.goodEntry(2)
+			c.Name = fmt.Sprintf("m%d-%s", h, c.Name)
+			cur := []entry{a, b, c}
+			rounds := [][]entry{append([]entry{}, cur...)}
+			for r := 0; r < 3+hr.Intn(3); r++ {
+				next := append([]entry{}, cur...)
+				switch hr.Intn(5) {
+				case 0, 1: // the node re-joins with another address
+					next[0].Node = fmt.Sprintf("172.16.%d.%d", 1+hr.Intn(3), 10+hr.Intn(200))
+				case 2: // the instance restarts on another port
+					next[hr.Intn(2)].Port += 1 + hr.Intn(5)
+				case 3: // the service gets / changes / loses its own address
+					next[1].Addr = []string{"10.0.0.8", "", "10.0.0.7", "::1"}[hr.Intn(4)]
+				case 4: // the node address of an instance WITH its own address changes: nothing to see
+					next[1].Node = fmt.Sprintf("172.16.9.%d", 10+hr.Intn(200))
+				}
+				rounds = append(rounds, next)
+				cur = next
+			}
+			rounds = append(rounds, rounds[0]) // and back to the first state
+			for _, es := range rounds {
+				doConfig(run, "makeconfig/history-one-monitor", g.prefix, "dc1", mons, es, map[string]bool{})
+			}
+			histMon = nil
 		}
 	}
 
